@@ -7,6 +7,7 @@
 mod common;
 mod conc;
 mod ring;
+mod sched;
 mod waits;
 
 fn main() {
@@ -14,6 +15,7 @@ fn main() {
     let args: Vec<String> = std::env::args().collect();
     let lines = match args.get(1).map(|s| s.as_str()) {
         Some("ring") => ring::run(&args),
+        Some("sched") => sched::run(&args),
         Some("conc") => conc::run(&args),
         Some("waits") => waits::run(&args),
         other => {
